@@ -85,6 +85,7 @@ struct Inner {
     exit_points: bool,
     dump_req: bool,
     dump: Option<String>,
+    panic_msg: Option<String>,
 }
 
 pub struct SimCtl {
@@ -147,6 +148,14 @@ pub(crate) fn tick() {
     });
 }
 
+/// Records the message of a panic raised in the current thread (called from the harness's
+/// panic hook, which runs in the panicking thread). Stored in the thread's controller, if any.
+pub fn note_panic(msg: String) {
+    if let Some(ctl) = current() {
+        ctl.inner.lock().unwrap().panic_msg = Some(msg);
+    }
+}
+
 /// A named park point on the daemon's exit path. No-op unless the controller enabled them.
 pub(crate) fn point(name: &'static str) {
     if let Some(ctl) = current() {
@@ -170,6 +179,7 @@ impl SimCtl {
                 exit_points: false,
                 dump_req: false,
                 dump: None,
+                panic_msg: None,
             }),
             cv: Condvar::new(),
         })
@@ -212,6 +222,10 @@ impl SimCtl {
     }
     pub fn park_info(&self) -> ParkInfo {
         self.inner.lock().unwrap().park.clone()
+    }
+    /// Message of the panic that ended the daemon thread, if a hook recorded one.
+    pub fn panic_msg(&self) -> Option<String> {
+        self.inner.lock().unwrap().panic_msg.clone()
     }
 
     /// Harness side: wait until the daemon is parked (or exited).
